@@ -2,6 +2,7 @@
   C43 — property theorems over XC.Model.C43 (agent keyring, server framing, client codecs).
 -/
 import XC.Proofs.C43
+import XC.Model.C43_Pipe
 namespace XC.C43
 open XC
 
@@ -824,3 +825,106 @@ theorem wire_list (ids : List Ident) (r : KR) (now : Int)
       exact hk x (hsub x hx)) hlen]
 
 end XC.C43
+
+/-! ## 6. the pipelined client and the keyring mutex -/
+namespace XC.C43.Pipe
+
+theorem seqRun_append {σ Req Rep : Type} (step : σ → Req → σ × Rep) (s : σ) (a : List Req) (q : Req) :
+    seqRun step s (a ++ [q]) =
+      ((step (seqRun step s a).1 q).1, (seqRun step s a).2 ++ [(step (seqRun step s a).1 q).2]) := by
+  induction a generalizing s with
+  | nil => simp [seqRun]
+  | cons x xs ih => simp [seqRun, ih]
+
+theorem seqRun_append_list {σ Req Rep : Type} (step : σ → Req → σ × Rep) (s0 : σ) (l1 l2 : List Req) :
+    (seqRun step s0 (l1 ++ l2)).2 = (seqRun step s0 l1).2 ++ (seqRun step (seqRun step s0 l1).1 l2).2 := by
+  induction l1 generalizing s0 with
+  | nil => simp [seqRun]
+  | cons x xs ih => simp [seqRun, ih]
+
+/-- invariant of the pipeline: the calls split into delivered `A`, answered-but-unread `B`, unserved `C` -/
+structure PInv {σ Req Rep : Type} (step : σ → Req → σ × Rep) (s0 : σ) (s : PState σ Req Rep) : Prop where
+  split : ∃ A B C : List (Nat × Req), ∃ RA : List Rep,
+    s.sent = A ++ B ++ C ∧ s.wire = C.map (·.2) ∧ s.pending = (B ++ C).map (·.1) ∧
+    RA.length = A.length ∧ s.replies.length = B.length ∧
+    seqRun step s0 ((A ++ B).map (·.2)) = (s.srv, RA ++ s.replies) ∧
+    s.delivered = (A.map (·.1)).zip RA
+
+theorem pinv_reach {σ Req Rep : Type} (step : σ → Req → σ × Rep) (s0 : σ) (s : PState σ Req Rep)
+    (h : Reach step s0 s) : PInv step s0 s := by
+  induction h with
+  | init => exact ⟨[], [], [], [], by simp [seqRun]⟩
+  | next _ st ih =>
+    obtain ⟨A, B, C, RA, h1, h2, h3, h4, h5, h6, h7⟩ := ih.split
+    cases st with
+    | call c q =>
+      exact ⟨A, B, C ++ [(c, q)], RA, by simp [h1, List.append_assoc], by simp [h2], by simp [h3, List.append_assoc],
+        h4, h5, h6, h7⟩
+    | serve q w hw =>
+      cases C with
+      | nil => simp [h2] at hw
+      | cons x C' =>
+        simp only [h2, List.map_cons, List.cons.injEq] at hw
+        obtain ⟨hq, hw'⟩ := hw
+        refine ⟨A, B ++ [x], C', RA, by simp [h1, List.append_assoc], hw'.symm, by simp [h3, List.append_assoc],
+          h4, by simp [h5], ?_, h7⟩
+        have : (A ++ (B ++ [x])).map (·.2) = (A ++ B).map (·.2) ++ [x.2] := by simp
+        rw [this, seqRun_append, h6, hq]
+        simp [List.append_assoc]
+    | read rp rs c ps hr hp =>
+      cases B with
+      | nil => simp [hr] at h5
+      | cons y B' =>
+        simp only [h3, List.cons_append, List.map_cons, List.cons.injEq] at hp
+        obtain ⟨hc, hps⟩ := hp
+        refine ⟨A ++ [y], B', C, RA ++ [rp], by simp [h1, List.append_assoc], h2, hps.symm,
+          by simp [h4], by simpa [hr] using h5, ?_, ?_⟩
+        · have : (A ++ [y] ++ B').map (·.2) = (A ++ y :: B').map (·.2) := by simp
+          rw [this, h6, hr]; simp [List.append_assoc]
+        · simp only [h7, List.map_append, List.map_cons, List.map_nil, hc]
+          rw [List.zip_append (by simp [h4])]
+          simp
+
+/-- **pipeline_fifo**: in every reachable state of the pipelined client, the replies handed to callers
+    are, in order, exactly the replies the sequential server gives to the requests in the order they were
+    written — caller `i` receives the answer to ITS request, however calls, server steps and reader steps
+    interleave; and the reader never finds `pending` empty when a reply arrives. -/
+theorem pipeline_fifo {σ Req Rep : Type} (step : σ → Req → σ × Rep) (s0 : σ) (s : PState σ Req Rep)
+    (h : Reach step s0 s) :
+    s.delivered = ((s.sent.map (·.1)).zip (seqRun step s0 (s.sent.map (·.2))).2).take s.delivered.length ∧
+    s.replies.length ≤ s.pending.length := by
+  obtain ⟨A, B, C, RA, h1, h2, h3, h4, h5, h6, h7⟩ := (pinv_reach step s0 s h).split
+  refine ⟨?_, by simp [h3, h5]⟩
+  have hlen : s.delivered.length = A.length := by simp [h7, h4]
+  -- the sequential run on all sent requests extends the run on A ++ B
+  have hpre := seqRun_append_list step s0
+  have hall : (seqRun step s0 (s.sent.map (·.2))).2 =
+      RA ++ (s.replies ++ (seqRun step s.srv (C.map (·.2))).2) := by
+    rw [h1, List.map_append, hpre, h6]; simp [List.append_assoc]
+  rw [hall, h1, hlen, h7]
+  simp only [List.map_append, List.append_assoc]
+  rw [List.zip_append (by simp [h4]), List.take_append_of_le_length (by simp [h4])]
+  rw [List.take_of_length_le (by simp [h4])]
+
+/-- **mutex_linearizable**: because every keyring method is one critical section, any concurrent
+    execution (any schedule of any number of caller programs) produces exactly the results of running the
+    executed operations sequentially in schedule order — so `refines_abstract` applies to it. -/
+theorem mutex_linearizable {σ Op Res : Type} (step : σ → Op → σ × Res) (s : σ) (progs : List (List Op))
+    (sched : List Nat) :
+    (runSchedule step s progs sched).1 = (seqRun step s (linearization progs sched)).1 ∧
+    (runSchedule step s progs sched).2.map (·.2) = (seqRun step s (linearization progs sched)).2 := by
+  induction sched generalizing s progs with
+  | nil => simp [runSchedule, linearization, seqRun]
+  | cons i sched ih =>
+    simp only [runSchedule, linearization]
+    cases hp : progs[i]? with
+    | none => simpa using ih s progs
+    | some l =>
+      cases l with
+      | nil => simpa using ih s progs
+      | cons op rest =>
+        have := ih (step s op).1 (progs.set i rest)
+        simp only [seqRun, List.map_cons]
+        exact ⟨this.1, by rw [this.2]⟩
+
+end XC.C43.Pipe
